@@ -28,7 +28,7 @@ KF_STALE = "stale-id-after-bridging-capture"
 KF_SNAPREUSE = "snapshot-forgets-closed-tcp-4tuple"
 KF_QUEUED = "queued-payload-flushed-but-not-written"
 KF_DGAP = "snapshot-changes-flush-order-double-gap"
-REGIMES = ["plain", "dup", "reorder", "udp-only", "udp-collide", "udp-reuse", "udp-reuse", "tcp-only", "tcp-reuse-late", "mixed", "tiecut", "udp-bucket", "udp-bucket"]
+REGIMES = ["plain", "dup", "reorder", "udp-only", "udp-collide", "udp-reuse", "udp-reuse", "tcp-only", "tcp-reuse-late", "mixed", "tiecut", "udp-bucket", "udp-bucket", "unsorted", "unsorted"]
 
 
 def all_partitions(nf):
